@@ -7,6 +7,7 @@ np.random.random in mofun.helpers) go through proxies that record and can inject
 """
 import copy
 import functools
+import inspect
 import random as _random
 
 import numpy as np
@@ -143,20 +144,28 @@ def install():
     ORIG["find"] = real_find
     checked_find = contracts.wrap_find(real_find)
 
+    find_sig = inspect.signature(real_find)
+
     @functools.wraps(real_find)
-    def find_wrapper(structure, pattern, axisp1_idx=None, axisp2_idx=None, opoint_idx=None,
-                     return_positions_and_quats=False, atol=5e-2, verbose=False):
-        emit("find.call", n_structure=len(structure), n_pattern=len(pattern), atol=atol,
-             hints=(axisp1_idx, axisp2_idx, opoint_idx))
+    def find_wrapper(*args, **kwargs):
+        # the arguments reach the real function exactly as the caller gave them (by position or by name): they are bound to the
+        # real function's own signature, never to a copy of the documented one kept here
+        ba = find_sig.bind(*args, **kwargs)
+        ba.apply_defaults()
+        b = ba.arguments
+        structure, pattern, atol = b["structure"], b["pattern"], b["atol"]
+        hints = (b["axisp1_idx"], b["axisp2_idx"], b["opoint_idx"])
+        return_positions_and_quats = b["return_positions_and_quats"]
+        emit("find.call", n_structure=len(structure), n_pattern=len(pattern), atol=atol, hints=hints)
+        b["return_positions_and_quats"] = True
         try:
-            res = checked_find(structure, pattern, axisp1_idx=axisp1_idx, axisp2_idx=axisp2_idx, opoint_idx=opoint_idx,
-                               return_positions_and_quats=True, atol=atol, verbose=verbose)
+            res = checked_find(*ba.args, **ba.kwargs)
         except Exception as e:
             emit("find.raise", exc=type(e).__name__, msg=str(e)[:200])
             raise
         idx, pos, quats = res
         emit("find.ret", matches=[tuple(int(i) for i in m) for m in idx], positions=np.array(pos, dtype=float, copy=True),
-             quats=quats, atol=atol, hints=(axisp1_idx, axisp2_idx, opoint_idx),
+             quats=quats, atol=atol, hints=hints,
              pattern_positions=np.array(pattern.positions, dtype=float, copy=True), pattern_elements=_elements_of(pattern))
         if return_positions_and_quats:
             return res
@@ -190,13 +199,19 @@ def install():
     real_extend = A.extend
     ORIG["extend"] = real_extend
 
+    extend_sig = inspect.signature(real_extend)
+
     @functools.wraps(real_extend)
-    def extend_wrapper(self, other, offsets=None, structure_index_map={}, verbose=False):
+    def extend_wrapper(*args, **kwargs):
+        ba = extend_sig.bind(*args, **kwargs)
+        ba.apply_defaults()
+        b = ba.arguments
+        self, other, offsets, structure_index_map = b["self"], b["other"], b["offsets"], b["structure_index_map"]
         emit("extend.call", n_self=len(self), n_other=len(other), offsets=None if offsets is None else tuple(int(x) for x in offsets),
              index_map={int(k): int(v) for k, v in dict(structure_index_map).items()},
              other_positions=np.array(other.positions, dtype=float, copy=True) if RECORD else None,
              other_elements=_elements_of(other) if RECORD else None)
-        r = real_extend(self, other, offsets=offsets, structure_index_map=structure_index_map, verbose=verbose)
+        r = real_extend(*args, **kwargs)
         emit("extend.ret", n_self=len(self))
         contracts.check_atoms_consistent(self, "Atoms.extend")
         return r
